@@ -1,5 +1,6 @@
+\* as RangeSplit_usize, 6-bit type
 CONSTANTS BODY = "B"  TNEG = 0  TMAX = 63  CNEG = 32  CMAX = 31  BNEG = 0  BHI = 63
-          MAXELEMS = 16  MAXPEERS = 6  REVERSED = FALSE  NEARMAX = TRUE  WRAPPED = FALSE
+          MAXELEMS = 16  MAXPEERS = 6  FIX_REVERSED = TRUE  FIX_CLAMP_START = TRUE  WRAPPED = FALSE
 SPECIFICATION Spec
 INVARIANTS C15_Range
 CHECK_DEADLOCK FALSE
